@@ -689,6 +689,73 @@ impl NamespaceResolver {
 
 ////////////////////////////////////////////////////////////////////////////////////////////////////
 
+#[cfg(any(kani, quick_xml_verif))]
+impl NamespaceResolver {
+    /// `(nesting level, number of bindings, length of the buffer)`
+    pub(crate) fn verif_parts(&self) -> (i32, usize, usize) {
+        (self.nesting_level, self.bindings.len(), self.buffer.len())
+    }
+}
+
+/// Verification hook (off in every normal build): a public face of the
+/// crate-private [`NamespaceResolver`], and a way to build one from its parts.
+#[cfg(any(kani, quick_xml_verif))]
+#[doc(hidden)]
+#[derive(Debug, Clone)]
+pub struct VerifResolver(pub(crate) NamespaceResolver);
+
+#[cfg(any(kani, quick_xml_verif))]
+#[doc(hidden)]
+impl VerifResolver {
+    /// The pre-bound `xml` and `xmlns` scopes followed by the given
+    /// `(prefix, namespace, level)` bindings
+    pub fn from_parts(user: &[(&[u8], &[u8], i32)], nesting_level: i32) -> Self {
+        let mut r = NamespaceResolver::default();
+        for (prefix, uri, level) in user {
+            r.bindings.push(NamespaceEntry {
+                start: r.buffer.len(),
+                prefix_len: prefix.len(),
+                value_len: uri.len(),
+                level: *level,
+            });
+            r.buffer.extend_from_slice(prefix);
+            r.buffer.extend_from_slice(uri);
+        }
+        r.nesting_level = nesting_level;
+        Self(r)
+    }
+    pub fn push(&mut self, start: &BytesStart) -> Result<(), NamespaceError> {
+        self.0.push(start)
+    }
+    pub fn pop(&mut self) {
+        self.0.pop()
+    }
+    pub fn resolve<'n>(&self, name: QName<'n>, use_default: bool) -> (ResolveResult, LocalName<'n>) {
+        self.0.resolve(name, use_default)
+    }
+    pub fn find(&self, element_name: QName) -> ResolveResult {
+        self.0.find(element_name)
+    }
+    pub fn iter(&self) -> PrefixIter {
+        self.0.iter()
+    }
+    /// `(nesting level, number of bindings, length of the buffer)`
+    pub fn parts(&self) -> (i32, usize, usize) {
+        self.0.verif_parts()
+    }
+    /// `(prefix, namespace, level)` of binding `i`
+    pub fn entry(&self, i: usize) -> (&[u8], &[u8], i32) {
+        let e = &self.0.bindings[i];
+        (
+            &self.0.buffer[e.start..e.start + e.prefix_len],
+            &self.0.buffer[e.start + e.prefix_len..e.start + e.prefix_len + e.value_len],
+            e.level,
+        )
+    }
+}
+
+////////////////////////////////////////////////////////////////////////////////////////////////////
+
 /// Iterator on the current declared prefixes.
 ///
 /// See [`NsReader::prefixes`](crate::NsReader::prefixes) for documentation.
